@@ -115,6 +115,42 @@ impl World {
     }
 }
 
+/// A hostile variant of a string value an attacker controls (tag values, string parameters).
+pub fn hostile_variant(orig: &str, rng: &mut Rng) -> String {
+    let n = orig.len();
+    match rng.below(10) {
+        // same BYTE length, valid UTF-8, with a multi-byte character covering byte offset `at`
+        0..=4 => {
+            let wide = *rng.pick(&["\u{e9}", "\u{20ac}", "\u{1F600}"]);
+            let w = wide.len();
+            if n < w {
+                return wide.to_string();
+            }
+            // the character starts at byte `start` and covers offsets start+1 .. start+w-1
+            let start = rng.below(n - w + 1);
+            let ascii: String = orig.chars().map(|c| if c.is_ascii() { c } else { 'x' }).collect();
+            let ascii = format!("{ascii:x<n$}");
+            let mut out = String::new();
+            out.push_str(&ascii[..start]);
+            out.push_str(wide);
+            out.push_str(&ascii[start + w..n]);
+            out
+        }
+        5 => orig[..orig.char_indices().nth(orig.chars().count() / 2).map(|x| x.0).unwrap_or(0)].to_string(),
+        6 => orig.to_uppercase(),
+        7 => String::new(),
+        8 => format!("{orig}{}", "f".repeat(rng.range(1, 600))),
+        _ => {
+            let mut b: Vec<char> = orig.chars().collect();
+            if !b.is_empty() {
+                let p = rng.below(b.len());
+                b[p] = *rng.pick(&['\0', ' ', '\n', 'g', '-', '\u{202e}']);
+            }
+            b.into_iter().collect()
+        }
+    }
+}
+
 fn resign(kind: Kind, content: String, tags: Vec<Tag>, ts: u64) -> Event {
     EventBuilder::new(kind, content).tags(tags).custom_created_at(Timestamp::from(ts)).sign_with_keys(&Keys::generate()).unwrap()
 }
@@ -145,7 +181,7 @@ pub fn gen_hostile(a: &mut Arena, rng: &mut Rng) -> Option<Hostile> {
         let payload = with_mdk!(a.w.clients[atk].mdk, x => adv::mls_app(x, &gid, b"{\"x\":1}"))?;
         let valid = with_mdk!(a.w.clients[atk].mdk, x => adv::wrap_as(x, &gid, &payload, ts))?;
         let content = valid.content.clone();
-        let k = rng.below(16);
+        let k = rng.below(20);
         let (label, ev) = match k {
             0 => ("kind=1", resign(Kind::TextNote, content, vec![htag(&nid)], ts)),
             1 => ("kind=444", resign(Kind::MlsWelcome, content, vec![htag(&nid)], ts)),
@@ -162,7 +198,8 @@ pub fn gen_hostile(a: &mut Arena, rng: &mut Rng) -> Option<Hostile> {
             12 => ("created_at=u64max", resign(Kind::MlsGroupMessage, content, vec![htag(&nid)], u64::MAX)),
             13 => ("content-not-base64", resign(Kind::MlsGroupMessage, "%%% not base64 \u{1F980}".into(), vec![htag(&nid)], ts)),
             14 => ("content-truncated", resign(Kind::MlsGroupMessage, content[..content.len() / 2].to_string(), vec![htag(&nid)], ts)),
-            _ => ("content-empty", resign(Kind::MlsGroupMessage, String::new(), vec![htag(&nid)], ts)),
+            15 => ("content-empty", resign(Kind::MlsGroupMessage, String::new(), vec![htag(&nid)], ts)),
+            _ => ("h-hostile-string", resign(Kind::MlsGroupMessage, content, vec![Tag::custom(TagKind::h(), [hostile_variant(&hex::encode(nid), rng)])], ts)),
         };
         return Some(Hostile { layer: "L1", label: label.into(), ev });
     }
@@ -405,8 +442,25 @@ pub fn l4_trial(prop: &str, i: u64, rng: &mut Rng, out: &mut Outcome, dir: &std:
     let mut labels = vec![];
     for _ in 0..n {
         let mut r = valid.clone();
-        let k = rng.below(14);
+        let k = rng.below(18);
         let label = match k {
+            14..=17 => {
+                let mut tv: Vec<Tag> = r.tags.iter().cloned().collect();
+                if !tv.is_empty() {
+                    let ti = rng.below(tv.len());
+                    let parts: Vec<String> = tv[ti].as_slice().to_vec();
+                    if parts.len() > 1 {
+                        let vi = 1 + rng.below(parts.len() - 1);
+                        let mut np = parts.clone();
+                        np[vi] = hostile_variant(&parts[vi], rng);
+                        if let Ok(t) = Tag::parse(np) {
+                            tv[ti] = t;
+                        }
+                    }
+                }
+                r.tags = Tags::from_list(tv);
+                "one-tag-value-hostile-string"
+            }
             0 => {
                 r.kind = Kind::TextNote;
                 "kind=1"
@@ -516,8 +570,24 @@ pub fn l4_trial(prop: &str, i: u64, rng: &mut Rng, out: &mut Outcome, dir: &std:
         let mut content = content;
         let mut kind = Kind::MlsKeyPackage;
         let mut signer = keys.clone();
-        let k = rng.below(12);
+        let k = rng.below(20);
         let label = match k {
+            12..=19 => {
+                // ONE value of ONE tag replaced by a hostile variant of itself: same byte length with a
+                // multi-byte character across a byte offset the code may slice at, odd-length / upper-case
+                // hex, prefix only, empty, over-long, embedded NUL ...
+                let ti = rng.below(tags.len());
+                let parts: Vec<String> = tags[ti].as_slice().to_vec();
+                if parts.len() > 1 {
+                    let vi = 1 + rng.below(parts.len() - 1);
+                    let mut np = parts.clone();
+                    np[vi] = hostile_variant(&parts[vi], rng);
+                    if let Ok(t) = Tag::parse(np) {
+                        tags[ti] = t;
+                    }
+                }
+                "one-tag-value-hostile-string"
+            }
             0 => {
                 tags.remove(rng.below(tags.len()));
                 "tag-removed"
@@ -623,6 +693,12 @@ fn hostile_strings(rng: &mut Rng) -> Vec<String> {
         hex::encode(rng.vec(17)),
         " 00".into(),
         "0x00".into(),
+        // valid-looking ids (64 / 66 / 32 hex characters) with one multi-byte character inside, byte length preserved
+        hostile_variant(&"ab".repeat(32), rng),
+        hostile_variant(&"0".repeat(64), rng),
+        hostile_variant(&"c".repeat(66), rng),
+        hostile_variant(&"1f".repeat(16), rng),
+        hostile_variant("wss://relay.example.com/path", rng),
         "{\"kind\":445,\"content\":\"\",\"tags\":[],\"pubkey\":\"00\",\"id\":\"00\",\"sig\":\"00\",\"created_at\":0}".into(),
     ]
 }
